@@ -688,6 +688,52 @@ def scale_runs(quick):
     return out
 
 
+def long_histories(rng, nprog, length, tries=4):
+    """MODEL-GUIDED long histories: `nprog` programs are grown statement by statement (all statement kinds over a few shared
+    names, two functions, arrays, strings, numbers); a candidate statement is kept when the model runs the extended program to
+    completion, so the programs stay alive for `length` statements and carry state (values, scopes, array storage, pronoun)
+    across hundreds of different events. Every few statements everything observable is printed."""
+    names = [('simple', 'xx'), ('simple', 'yy'), ('common', 'my', 'heart'), ('proper', ['Doctor', 'Feelgood'])]
+    funcs = [('simple', 'ff'), ('simple', 'gg')]
+    pre = ('ff takes pp\ngive back pp with 1\n\ngg takes pp, qq\nif pp is greater than qq\ngive back pp\n\ngive back qq\n\n'
+           'put 1 into xx\nput "s" into yy\nrock my heart with 1, 2\nput 2 into Doctor Feelgood\n')
+    dump = 'say xx\nsay yy\nsay my heart\nsay Doctor Feelgood\nsay xx is yy\nsay my heart is Doctor Feelgood\n'
+    progs_ = [pre for _ in range(nprog)]
+    counts = [0] * nprog
+    for step in range(length * tries):
+        cands = []
+        for i in range(nprog):
+            g = rock.Gen(rng, names=names, funcs=funcs, max_depth=2)
+            r = rng.random()
+            if r < 0.7:
+                st = g.simple_stmt(2)
+            elif r < 0.8:
+                st = ('if', g.expr(1), [g.simple_stmt(1)], [g.simple_stmt(1)] if rng.random() < 0.5 else None)
+            elif r < 0.9:
+                cn = ('simple', 'cc')
+                st = [('assign', ('lid', cn), None, [('lit', ('num', 0.0))], 'put'),
+                      ('while', ('bin', 'less', ('id', cn), [('lit', ('num', float(rng.randint(1, 4))))], 'is'), [('inc', cn, 1), g.simple_stmt(1, in_loop=True)])]
+            else:
+                st = ('output', g.expr(2))
+            sts = st if isinstance(st, list) else [st]
+            try:
+                text = rock.Speller(rng, noise=0.02, comments=0.02).program([sts])
+            except Exception:
+                text = ''
+            if counts[i] % 10 == 9:
+                text += dump
+            cands.append(text)
+        ext = [progs_[i] + cands[i] for i in range(nprog)]
+        ans = common.serve_sharded([common.DRIVER], [run_req(t, 'a line\nanother\n' * 50, steps=200000) for t in ext], 30, 'modelg', shards=nprog)
+        for i, a in enumerate(ans):
+            if a.startswith('ok ') and cands[i] and counts[i] < length:
+                progs_[i] = ext[i]
+                counts[i] += 1
+        if min(counts) >= length:
+            break
+    return [p_ + dump for p_ in progs_], counts
+
+
 def c09(run):
     rng = run.rng
     n = run.n(2500, 100000)
@@ -749,6 +795,18 @@ def c09(run):
                 f = r.split(' ')
                 if f[2] == 'crash' or len(f[2]) <= 1:
                     run.fail({'program': src, 'answer': r[:200]}, 'runtime error message cannot be rendered')
+    # model-guided long histories: state carried across hundreds of different events inside ONE run
+    lh, counts = long_histories(rng, 16, 60 if run.tier == 'quick' else 400, tries=3)
+    lreqs = [run_req(t, 'a line\nanother\n' * 50, steps=200000) for t in lh]
+    lm, lim = run.tie(lreqs, proj=proj_run, functional=True, desc=lambda i: {'program': lh[i], 'section': 'long history'})
+    for t, r in zip(lh, lim):
+        if r is None:
+            continue
+        c = run_parts(r)[0]
+        run.case(('long', t), True, kind='long-history', outcome=c)
+        if c in ('crash', 'hang'):
+            run.fail({'program': t, 'answer': r[:200]}, 'a long program %s' % ('does not terminate' if c == 'hang' else 'crashes the interpreter'))
+    run.extra['long_histories'] = {'programs': len(lh), 'statements_min': min(counts), 'statements_max': max(counts)}
 
 
 # ----------------------------------------------------------------------------- C08
@@ -894,12 +952,23 @@ def dict_program(rng):
         pre = rng.choice(['k', 'é', 'path/']) * L
         keys = [pre[:L] + suf for suf in rng.sample(['a', 'b', 'c', 'dd', 'e', 'zz', '0', 'Ω'], rng.randint(2, 6))]
     stmts = []
+    via_var = {}
+    if rng.random() < 0.25:
+        # RELATED keys: one key is another continued by a character from anywhere in ASCII (the double quote included,
+        # which only a poetic string, a cast or input can produce), so the order of their renderings is a fine point
+        base = rng.choice(['New', 'x', 'ab', 'k'])
+        tails = ['', '"', '" y', '"z', ' ', ' y', '!', '#', '~', 'a', 'A', '0', '"\'', '""', ',', '.']
+        keys = [base + t for t in rng.sample(tails, rng.randint(2, 6))]
+        for j, k in enumerate(keys):
+            kv = sv('key' + 'abcdef'[j])
+            stmts.append(('pstr', ('lid', kv), k))
+            via_var[k] = v(kv)
     for k in keys:
         kind = rng.random()
-        key = st(k)
+        key = via_var.get(k, st(k))
         if kind < 0.1:
             key = rng.choice([TRUE, FALSE, NULL, MYST])
-        val = rng.choice([st(k.upper() or 'E'), st('v' + k), num(rng.randint(0, 9)), TRUE]) if rng.random() < 0.3 else st('v' + k)
+        val = rng.choice([st(k.upper().replace('"', '') or 'E'), st('v' + k.replace('"', '')), num(rng.randint(0, 9)), TRUE]) if rng.random() < 0.3 else st('v' + k.replace('"', 'Q'))
         stmts.append(put_at(val, v(A), key))
     if rng.random() < 0.5:
         stmts.append(('push', v(A), ('list', [st('s0'), st('s1')])))
@@ -917,7 +986,7 @@ def dict_program(rng):
     elif r < 0.82:
         tail = [('push', v(sv('outer')), ('list', [v(A)])), ('mut', 'cut', v(sv('outer')), None, None)]
     elif r < 0.9:
-        tail = [say(sub(v(A), st(keys[0]))), say(v(A)), ('mut', 'join', v(A), None, v(A))]   # invalid join delimiter [array]
+        tail = [say(sub(v(A), via_var.get(keys[0], st(keys[0])))), say(v(A)), ('mut', 'join', v(A), None, v(A))]   # invalid join delimiter [array]
     else:
         tail = [('pop', v(A), ('lid', B)), say(v(B)), ('inc', A, 1)]
     return [stmts + tail]
@@ -1536,7 +1605,7 @@ def mutation_program(rng, strs, delims):
 
 # ----------------------------------------------------------------------------- C15
 
-ADVERSARIAL = ['İstanbul', '\u212aelvin', 'ǅemal', 'Ωmega', 'Éclair', 'straße']
+ADVERSARIAL = ['İstanbul', '\u212aelvin', 'ǅemal', 'Ωmega', 'Éclair', 'straße', 'ΚΟΣΜΟΣ', 'Κοσμοσ', 'ΟΔΥΣΣΕΥΣ', 'ΣΑΣ']
 
 
 def rename_tree(t, mapping):
@@ -1552,12 +1621,17 @@ def rename_tree(t, mapping):
     return t
 
 
+def lower_(w):
+    """per-character lower-casing, as the interpreter folds names (Python's str.lower applies the final-sigma rule)"""
+    return ''.join(c.lower() for c in w)
+
+
 def name_key(n):
     if n[0] == 'simple':
-        return ('simple', n[1].lower())
+        return ('simple', lower_(n[1]))
     if n[0] == 'common':
-        return ('common', n[1].lower(), n[2].lower())
-    return ('proper', tuple(w.lower() for w in n[1]))
+        return ('common', lower_(n[1]), lower_(n[2]))
+    return ('proper', tuple(lower_(w) for w in n[1]))
 
 
 def collect_names(t, acc):
@@ -1644,7 +1718,10 @@ def c15(run):
         fresh = {}
         used = set(names)
         pool = list(names)
-        family = confusable_family(rng) if rng.random() < 0.35 else []
+        rf = rng.random()
+        family = confusable_family(rng) if rf < 0.35 else rock.long_prefix_family(rng) if rf < 0.45 else []
+        if 0.35 <= rf < 0.45:
+            rng.shuffle(family)
         for k in sorted(names, key=str):
             while True:
                 cand = family.pop() if family else g.fresh_name()
